@@ -10,6 +10,7 @@ name=$1; patch=$(readlink -f "$2"); shift 2
 root=/tmp/mt/$name
 rm -rf "$root"; mkdir -p "$root/out/work" /tmp/mt/target
 git -C /repo worktree add --detach -q "$root/repo" HEAD || exit 2
+cp /repo/Cargo.lock "$root/repo/Cargo.lock" 2>/dev/null
 ( cd "$root/repo" && git apply "$patch" ) || { echo "$name PATCH-DOES-NOT-APPLY"; git -C /repo worktree remove --force "$root/repo"; exit 2; }
 export CARGO_NET_OFFLINE=true CARGO_TERM_COLOR=never
 if [ "${BASELINE:-0}" = 1 ]; then
@@ -28,7 +29,7 @@ if [ $needs_base = 1 ]; then
   cp /tmp/mt/target-base/release/mc "$root/mc-base"
 fi
 for id in "$@"; do
-  VERIF_REPO="$root/repo" VERIF_DIR="$root/out" VERIF_BASE_MC="$root/mc-base" VERIF_GEN_TARGET=/tmp/mt/target-gen VERIF_MC_SRC="$root/mc" \
+  VERIF_REPO="$root/repo" VERIF_DIR="$root/out" VERIF_BASE_MC="$root/mc-base" VERIF_GEN_TARGET=/tmp/mt/target-gen VERIF_C16_TARGET=/tmp/mt/target-c16 VERIF_C20_TARGET=/tmp/mt/target-c20 VERIF_MC_SRC="$root/mc" \
     "$root/mc-full" run "$id" "${TIER:-quick}" >"$root/$id.out" 2>"$root/$id.err"
   code=$?
   line=$(grep -m1 -E "^VIOLATION|^KNOWN-FINDING|^HELD|^FAILED" "$root/$id.out"); [ -z "$line" ] && line=$(tail -1 "$root/$id.err")
